@@ -25,6 +25,7 @@ func c04ProbeRules(c *core.Ctx, sp *packages.Package) {
 	c04UnaryOp(c, sp)
 	c04Substr(c, sp)
 	c04SigCall(c, sp)
+	c04Conversions(c, sp)
 }
 
 var c04EvalTypes = map[string]string{"EvalInt": "TInt", "EvalFloat": "TFloat", "EvalString": "TString", "EvalDuration": "TDuration", "EvalBool": "TBool", "EvalRegex": "TRegex", "EvalTime": "TTime", "EvalMissing": "TMissing"}
@@ -637,5 +638,133 @@ func c06ExprCopy(c *core.Ctx, rule string) {
 		}
 		_ = recv
 		c.Check(used, rule, "expression."+m+"#fresh-tree", fn.Decl.Pos(), "expression.%s does not build the evaluator tree anew (createNodeEvaluator(se.node) into nodeEvaluator), while %v keep an ExecutionState of their own inside the tree: the copies that where/eval/alert/stateCount make for each group share the state of every stateful function in a lambda variable — with var c = lambda: count() and |where(lambda: c > 2) behind a groupBy, all groups advance one counter", m, stateful)
+	}
+}
+
+// c04Conversions (seeds C04-11-r4, C04-12-r4): the conversion built-ins call strconv with the documented base and format, and the
+// "time" variable of a scope is the point's time in the process's local zone (the calendar functions read the zone of the value).
+func c04Conversions(c *core.Ctx, sp *packages.Package) {
+	c.Rule("C04.convbase", "A4: the conversion built-ins (bool, int, float, string) parse and print with the documented base and format: strconv.ParseInt(s, 10, 64), ParseFloat(s, 64), FormatInt(v, 10), FormatFloat(v, 'f', -1, 64) — int('010') is 10 and int('0x10') an error")
+	info := sp.TypesInfo
+	want := map[string][]string{ // constant arguments after the first
+		"ParseInt":    {"10", "64"},
+		"ParseFloat":  {"64"},
+		"FormatInt":   {"10"},
+		"FormatFloat": {"102", "-1", "64"}, // 'f' == 102
+	}
+	n := 0
+	for _, f := range core.AllFuncs(sp) {
+		if f.Decl.Name.Name != "Call" || f.Decl.Recv == nil {
+			continue
+		}
+		recv := core.RecvName(f.Decl)
+		ast.Inspect(f.Decl.Body, func(nd ast.Node) bool {
+			call, ok := nd.(*ast.CallExpr)
+			if !ok {
+				return true
+			}
+			cal := core.Callee(info, call)
+			if cal == nil || cal.Pkg() == nil || cal.Pkg().Path() != "strconv" {
+				return true
+			}
+			w, ok := want[cal.Name()]
+			if !ok || len(call.Args) != len(w)+1 {
+				return true
+			}
+			n++
+			c.Analysed(f)
+			var got []string
+			good := true
+			for i, a := range call.Args[1:] {
+				tv, ok := info.Types[a]
+				g := "?"
+				if ok && tv.Value != nil {
+					g = constant.ToInt(tv.Value).ExactString()
+				}
+				got = append(got, g)
+				if g != w[i] {
+					good = false
+				}
+			}
+			c.Check(good, "C04.convbase", recv+".Call#strconv."+cal.Name(), call.Pos(), "%s.Call calls strconv.%s with the constant arguments %v, the documented conversion needs %v: with base 0 a string with a leading zero is read as octal (int('010') = 8) and '0x10', '0b11', '1_000' convert instead of being errors for that point", recv, cal.Name(), got, w)
+			return true
+		})
+	}
+	c.Floor("C04.convbase", "strconv calls of the conversion built-ins", n, 4)
+
+	c.Rule("C04.timezone", "A3: the \"time\" variable of an expression's scope is the point's own time in the local zone of the process (fillScope sets it from <point>.Time().Local() or .In(time.Local)): hour(), day(), weekday() … read the zone of the value they are given")
+	root := c.P.Pkg("")
+	if root == nil {
+		c.Note("C04.timezone: the root package is not loaded in this run")
+		return
+	}
+	rinfo := root.TypesInfo
+	fn := c.Need("C04.timezone", "", "", "fillScope")
+	if fn == nil {
+		return
+	}
+	c.Analysed(fn)
+	pt := an.ParamName(fn.Decl.Type, 2)
+	// locals defined as <pt>.Time()
+	timeVars := map[types.Object]bool{}
+	ast.Inspect(fn.Decl.Body, func(nd ast.Node) bool {
+		as, ok := nd.(*ast.AssignStmt)
+		if !ok || len(as.Lhs) != 1 || len(as.Rhs) != 1 {
+			return true
+		}
+		if types.ExprString(as.Rhs[0]) == pt+".Time()" {
+			if id, ok := as.Lhs[0].(*ast.Ident); ok {
+				if o := rinfo.Defs[id]; o != nil {
+					timeVars[o] = true
+				}
+			}
+		}
+		return true
+	})
+	isPointTime := func(e ast.Expr) bool {
+		e = ast.Unparen(e)
+		if types.ExprString(e) == pt+".Time()" {
+			return true
+		}
+		id, ok := e.(*ast.Ident)
+		return ok && timeVars[rinfo.Uses[id]]
+	}
+	sets, good := 0, true
+	ast.Inspect(fn.Decl.Body, func(nd ast.Node) bool {
+		call, ok := nd.(*ast.CallExpr)
+		if !ok || len(call.Args) != 2 {
+			return true
+		}
+		cal := core.Callee(rinfo, call)
+		if cal == nil || cal.Name() != "Set" {
+			return true
+		}
+		tv, ok := rinfo.Types[call.Args[0]]
+		if !ok || tv.Value == nil || tv.Value.Kind() != constant.String || constant.StringVal(tv.Value) != "time" {
+			return true
+		}
+		sets++
+		v, ok := ast.Unparen(call.Args[1]).(*ast.CallExpr)
+		okk := false
+		if ok {
+			if sel, ok := v.Fun.(*ast.SelectorExpr); ok && isPointTime(sel.X) {
+				switch {
+				case sel.Sel.Name == "Local" && len(v.Args) == 0:
+					okk = true
+				case sel.Sel.Name == "In" && len(v.Args) == 1 && types.ExprString(v.Args[0]) == "time.Local":
+					okk = true
+				}
+			}
+		}
+		if !okk {
+			good = false
+			c.Fail("C04.timezone", "fillScope#time", call.Pos(), "fillScope sets \"time\" to %s, not to the point's time in the local zone (<point>.Time().Local()): the calendar functions hour(), minute(), day(), weekday(), month(), year() compute in the zone of the value they get — in another zone than UTC `hour(\"time\") >= 9 AND hour(\"time\") < 18` selects other hours than the server's", types.ExprString(call.Args[1]))
+		}
+		return true
+	})
+	if sets == 0 {
+		c.Undecided("C04.timezone", "fillScope", fn.Decl.Pos(), "no Set(\"time\", …) found")
+	} else if good {
+		c.Ok("C04.timezone", "fillScope#time")
 	}
 }
